@@ -75,14 +75,14 @@ class RecAdds:
         buf.add_sample = add_sample
 
 
-def collect(chk, rng, routines, per_routine, quick=True, extra=None):
+def collect(chk, rng, routines, per_routine, quick=True, extra=None, gen=None):
     """Returns a list of records {cfg, res, adds, model}. Buffers are created inside
     trainrun.run, so add_sample is recorded by patching the buffer classes for the run."""
     from rl_blox.blox import replay_buffer as rbm
     recs, exprs = [], []
     for name in routines:
         for _ in range(per_routine):
-            cfg = gen_config(rng, name, quick)
+            cfg = (gen or gen_config)(rng, name, quick)
             rec = RecAdds()
             patched = []
             for cls in (rbm.ReplayBuffer, rbm.SubtrajectoryReplayBuffer):
@@ -95,9 +95,10 @@ def collect(chk, rng, routines, per_routine, quick=True, extra=None):
                 patched.append((cls, orig_init))
             greedy_calls = []
             gp = _patch_greedy(name, greedy_calls)
+            ex = extra(rng) if callable(extra) else dict(extra or {})
             try:
                 res = tr.run(name, cfg["script"], cfg["total"], start=cfg["start"], limit=cfg["limit"], warm=cfg["warm"], batch=cfg["batch"],
-                             seed=int(rng.integers(0, 1000)), extra=dict(extra or {}, uf=cfg["uf"]))
+                             seed=int(rng.integers(0, 1000)), extra=dict(ex, uf=cfg["uf"]))
                 exc = None
             except Exception as e:  # noqa: BLE001
                 import traceback
@@ -106,7 +107,7 @@ def collect(chk, rng, routines, per_routine, quick=True, extra=None):
                 for cls, oi in patched:
                     cls.__init__ = oi
                 _unpatch_greedy(gp)
-            recs.append({"name": name, "cfg": cfg, "res": res, "adds": rec.adds, "exception": exc, "greedy_calls": greedy_calls})
+            recs.append({"name": name, "cfg": cfg, "res": res, "adds": rec.adds, "exception": exc, "greedy_calls": greedy_calls, "extra": ex})
             exprs.append(model_expr(name, cfg["script"], cfg["total"], cfg["start"], cfg["limit"], cfg["batch"], cfg["warm"], cfg["uf"]))
             chk.case((name, str(cfg)), nontrivial=cfg["total"] > cfg["start"])
             chk.count("runs_" + name)
